@@ -6,6 +6,11 @@ pub struct VErr { _p: () }
 
 #[verifier::external_body]
 pub fn verr() -> (e: VErr) { VErr { _p: () } }
+// `res.expect(..)` / `res.unwrap()` on a Result need the error type to be Debug (never executed: the unit is only verified)
+#[verifier::external]
+impl std::fmt::Debug for VErr {
+    fn fmt(&self, f: &mut std::fmt::Formatter<'_>) -> std::fmt::Result { Ok(()) }
+}
 
 // Bitcoin block heights are far below 2^63: every `height + constant` of the kernel stays inside u64.
 // Stated as an explicit precondition wherever it is used (listed under assumptions).
